@@ -295,6 +295,13 @@ def gr_zero_to_one_impl(
         src_rows (ilist.IList[int, Any]): The rows to apply the transformation to.
     """
     logical_rows = spec.get_int_constant(constant_id="logical_rows")
+
+    def check_row(row: int):
+        assert row < logical_rows, "row index must be less than `logical_rows`"
+        assert row >= 0, "row index must be non-negative"
+
+    ilist.for_each(check_row, src_rows)
+
     row_separation = spec.get_float_constant(constant_id="row_separation")
     col_separation = spec.get_float_constant(constant_id="col_separation")
     gate_spacing = spec.get_float_constant(constant_id="gate_spacing")
